@@ -930,10 +930,14 @@ def class_spec(name, sch, defs, probe_disc):
         # definitions referenced by the class come back in the second component
         if dn in b[2] and norm_schema(d) != norm_schema(b[2][dn]):
             diff_field(norm_schema(d), norm_schema(b[2][dn]), "definition", diffs)
+    # a string that a RAW site (wrap_val / pasted docstring) writes wrongly can swallow the text after it and still
+    # compile (default 'a\\' eats the closing quote and the next parameter): the source is then not the intended token
+    # sequence, and every structural difference of this schema has that (reported) lexical root cause
+    raw_broken = bool(explained & {"pattern", "default", "description"})
     for k, w in diffs:
         m = re.match(r"C09/back/\w+/(pattern|default|enum)/changed", k)
-        if m and ({"pattern": "pattern", "default": "default", "enum": "enum"}[m.group(1)] in explained
-                  or (m.group(1) == "default" and "default_container" in explained)):
+        if raw_broken or (m and ({"pattern": "pattern", "default": "default", "enum": "enum"}[m.group(1)] in explained
+                                 or (m.group(1) == "default" and "default_container" in explained))):
             continue
         fails.append((k, w))
     return fails, ("ok" if not fails else "differs"), code
@@ -1453,7 +1457,8 @@ def run(rep, tier):
             model = None
             n_unmodelled += 1
         back_req = None
-        if model is not None and tag in ("ok", "differs"):
+        collapsible = len(sch.get("properties", {})) == 1 and sch.get("additionalProperties", True) is False
+        if model is not None and tag in ("ok", "differs") and not collapsible:
             r2 = run_generator(name, copy.deepcopy(sch), copy.deepcopy(defs))
             x2 = exec_code(r2[1], r2[2]) if r2[0] == "ok" else ("raise",)
             b2 = back_map(x2[1], name) if x2[0] == "ok" else ("raise",)
